@@ -342,4 +342,55 @@ theorem readAndSegment_not_bad (h : Hdr) (pkt : List UInt8) (hcs16 : h.csumStart
         have hu := g2.2.2.1 (g3.mp rfl)
         exact segmentUDP_not_bad he g1.1 g1.2.1 (by omega) g2.1
 
+/-- `CorrectHdrLen` on a TCP GSO type: the corrected length is `csum_start` + the data offset read from
+the packet (no 16-bit wrap survives the guards). -/
+theorem correctHdrLen_tcp {pkt : List UInt8} {h : Hdr} {hl : Nat} (he : correctHdrLen pkt h = .ok hl)
+    (hg : h.gso ≠ GSO_UDP_L4) (hcs16 : h.csumStart < 65536) :
+    hl = h.csumStart + byteAt pkt (h.csumStart + 12) / 16 * 4 := by
+  unfold correctHdrLen at he
+  split at he
+  · next hc => exact absurd hc hg
+  · simp only [bind_ok, failIf_ok, pure_ok] at he
+    obtain ⟨_, _, d, hd, _, ht, a, ha, _, h1, _, h2, _, _, h3⟩ := he
+    simp only [virtio_tcpHeaderMinLen, virtio_tcpHeaderMaxLen, virtio_tcpDataOffOff] at ht hd
+    subst h3; subst ha
+    have hnw : h.csumStart + d / 16 * 4 < 65536 := by omega
+    have e12 : (h.csumStart + 12) % 65536 = h.csumStart + 12 := by omega
+    rw [e12] at hd
+    rw [← (rd_ok_val hd).2]; omega
+
+/-- A successful tun read of a GSO superpacket *is* a run of `segmentTCP` / `segmentUDP` with the
+corrected header length: the bridge from the per-segmenter theorems to the real read path. -/
+theorem readAndSegment_gso {h : Hdr} {pkt : List UInt8} {segs : List (List UInt8)}
+    (hcs16 : h.csumStart < 65536) (hg : h.gso ≠ GSO_NONE) (he : readAndSegment h pkt = .ok segs) :
+    (h.gso = GSO_UDP_L4 ∧ segmentUDP pkt (h.csumStart + 8) h.csumStart h.gsoSize = .ok segs) ∨
+    ((h.gso = GSO_TCPV4 ∨ h.gso = GSO_TCPV6) ∧
+      segmentTCP pkt (h.csumStart + byteAt pkt (h.csumStart + 12) / 16 * 4) h.csumStart h.gsoSize = .ok segs) := by
+  unfold readAndSegment at he
+  simp only [bind_ok, failIf_ok] at he
+  obtain ⟨_, _, he⟩ := he
+  simp only [hg, if_false, bind_ok] at he
+  obtain ⟨_, hcv, hl, hhl, p, hp, he⟩ := he
+  have g1 := checkValid_ok hcv
+  have g2 := correctHdrLen_ok hhl
+  have g3 := protoFromGSOType_ok hp
+  have hgs := g1.2.2 hg
+  simp only [hgs, if_false] at he
+  cases p
+  · right
+    have hne : h.gso ≠ GSO_UDP_L4 := by intro hc; have := g3.mpr hc; cases this
+    have := correctHdrLen_tcp hhl hne hcs16
+    subst this
+    refine ⟨?_, he⟩
+    unfold protoFromGSOType at hp
+    split at hp
+    · assumption
+    · simp [hne, throw, throwThe, MonadExceptOf.throw, pure, Except.pure] at hp
+  · left
+    have hu := g3.mp rfl
+    have h8 := g2.2.2.1 hu
+    have : hl = h.csumStart + 8 := by have := g2.2.1; omega
+    subst this
+    exact ⟨hu, he⟩
+
 end Nebula.Lemmas.SegmentPipeline
